@@ -46,6 +46,7 @@ type c18ReqMon struct {
 }
 
 type c18Mon struct {
+	lim1 bool
 	w    *vx.W
 	h    *c17cli
 	cm   map[int]*c18ConnMon
@@ -219,7 +220,8 @@ func (m *c18Mon) quiescent(final bool) {
 				}
 			}
 		}
-		if !final && !r.finished() && len(rq.abortedOn) > 0 && len(rq.abortedOn) <= 2 {
+		if !final && !m.lim1 && !r.finished() && len(rq.abortedOn) > 0 && len(rq.abortedOn) <= 2 {
+			// (not with a stream limit of 1: there the retried request may legitimately wait for a slot)
 			// above a GOAWAY's last-stream-id and still running: it must have moved to another connection by now
 			// (first retry is immediate, the second one waits 1-1.1 s; 1.5 s have passed)
 			moved := false
@@ -287,6 +289,7 @@ func c18Exec(t testing.TB, w *vx.W, cs c18Case) {
 	defer h.finish()
 	m := &c18Mon{w: w, h: h, cm: map[int]*c18ConnMon{}, rm: map[int]*c18ReqMon{}, feat: map[string]bool{}}
 	lim1 := strings.HasSuffix(cs.Cfg, "lim1")
+	m.lim1 = lim1
 	for _, ev := range cs.Ev {
 		conns := h.connList()
 		connOf := func(b byte) *c17Conn {
